@@ -246,6 +246,7 @@ def run(chk):
                         chk.diverge({"clause": "ill-formed-given-a-meaning", "why": st["why"], "path": path_kind}, {"text": text, "name": n})
                         break
     chk.mark("bad-files")
+    alias_directive(chk, tmp)
     imported_file_edit(chk, tmp)
     bundled_paths(chk, tmp)
     shutil.rmtree(tmp, ignore_errors=True)
@@ -254,6 +255,50 @@ def run(chk):
              "specification's meaning, damaged files x path (must be refused), and the bundled files through four loading paths compared "
              "definition by definition; distinct by (permutation, padding, layout, path, type); non-trivial = lines not in written order",
         exhaustive=thorough)
+
+
+def alias_directive(chk, tmp):
+    """names added by @alias are spellings like any other: case-insensitive lookup, prefixes and plural apply to them, whichever way the
+    directive arrives (file, lines, define) - compared with the same name written inline in the unit's own line"""
+    import pint
+    inline = ["k- = 1000", "aa = [A] = asym = Metro = Mtr"]
+    direct = ["k- = 1000", "aa = [A] = asym", "@alias aa = Metro = Mtr"]
+    probes = ["Metro", "metro", "METRO", "kMetro", "kmetro", "Metros", "mtr", "kMTR", "Mtr"]
+
+    def answers(u, cs):
+        out = {}
+        for p_ in probes:
+            try:
+                out[p_] = u.get_name(p_, case_sensitive=cs)
+            except Exception as e:
+                out[p_] = type(e).__name__
+        return out
+
+    for path_kind in ("lines", "file", "define"):
+        for ci_registry in (False, True):
+            chk.case(("alias-directive", path_kind, ci_registry), nontrivial=True)
+            try:
+                kw = {"case_sensitive": False} if ci_registry else {}
+                ref = pint.UnitRegistry(list(inline), **kw)
+                if path_kind == "define":
+                    u = pint.UnitRegistry(list(direct[:2]), **kw)
+                    u.define("@alias aa = Metro = Mtr")
+                elif path_kind == "lines":
+                    u = pint.UnitRegistry(list(direct), **kw)
+                else:
+                    fn = os.path.join(tmp, "alias_%s.txt" % ci_registry)
+                    with open(fn, "w") as fh:
+                        fh.write("\n".join(direct) + "\n")
+                    u = pint.UnitRegistry(fn, **kw)
+            except Exception as e:
+                chk.diverge({"clause": "alias-directive-raises", "path": path_kind, "exc": type(e).__name__}, {"lines": direct})
+                continue
+            for cs in ((None, False) if not ci_registry else (None,)):
+                a, b = answers(ref, cs), answers(u, cs)
+                if a != b:
+                    diff = sorted(k for k in a if a[k] != b[k])
+                    chk.diverge({"clause": "alias-directive-differs-from-inline", "path": path_kind, "case_insensitive": ci_registry or cs is False},
+                                {"probes": diff, "inline": {k: a[k] for k in diff}, "directive": {k: b[k] for k in diff}})
 
 
 def imported_file_edit(chk, tmp):
